@@ -59,6 +59,8 @@ class Knobs:
         self.p_imports = 0.5
         # request-time components whose error type is `pavex::Error` itself
         self.p_pavex_errors = 0.6
+        # nested blueprints with their own handler for `pavex::Error` (probability per nested blueprint)
+        self.p_nested_pavex_eh = 0.2
         # the generic constructor is fallible, with an error type that shares its type parameter, and a generic error handler
         self.p_generic_errors = 0.5
         # an overriding constructor registered in two sibling blueprints (one module imported by both, or two plain registrations)
@@ -367,6 +369,13 @@ def gen_inclass(rng, knobs=None):
                 ins = [(t, "ref") for t in rng.sample(cands, min(len(cands), rng.choice([0, 0, 1])))]
                 spec["ehs"][ehid] = {"err": pushed_local, "ins": ins, "status": 530 + len(spec["ehs"])}
                 deferred_eh.append((rng.choice(bp_stack), ehid))
+        # a handler for `pavex::Error` of the nested blueprint's own (the nearest one is the fallback handler of whatever
+        # fails below it without a specific handler)
+        if depth > 0 and rng.random() < getattr(kn, "p_nested_pavex_eh", 0):
+            ehid = "EH_PAVEX_%d" % counters["label"]
+            counters["label"] += 1
+            spec["ehs"][ehid] = {"err": "pavex", "ins": [], "status": 540 + (counters["label"] % 9)}
+            items.append(["eh", ehid])
         # constructor overrides for request-scoped / transient types (nested blueprints only)
         if depth > 0:
             for t in rng.sample(names, min(len(names), rng.choice([0, 0, 1, 2]))):
